@@ -1,38 +1,58 @@
 #!/usr/bin/env python3
-"""Reads /tmp/seedrun/SUMMARY (written by tools/seedq.sh), stores the outcome of every seed run in
-seeded/<id>/meta.json (detection) and prints the markdown table for DESIGN.md par. 8a."""
+"""Reads the SUMMARY files written by tools/seedq.sh, stores the outcome of every seed run in
+seeded/<id>/meta.json (detection) and prints the markdown tables for DESIGN.md par. 8.
+usage: seed_report.py <label>=<SUMMARY file> ...     e.g.  r1=/tmp/seedrun/SUMMARY frozen=/tmp/seedrun2/SUMMARY"""
 import json, os, re, sys
+LINE = re.compile(r"(C\d+-[mn]\d) check=(C\d+) tier=(\w+) exit=(\d+) (\d+)s inconclusive=(\d+) failing=\[(.*)\]")
 runs = {}
-for line in open("/tmp/seedrun/SUMMARY"):
-    m = re.match(r"(C\d+-m\d) check=(C\d+) tier=(\w+) exit=(\d+) (\d+)s inconclusive=(\d+) failing=\[(.*)\]", line)
-    if not m:
+for arg in sys.argv[1:]:
+    label, path = arg.split("=", 1)
+    if not os.path.exists(path):
         continue
-    sid, prop, tier, rc, secs, inc, failing = m.groups()
-    runs.setdefault(sid, []).append({"check": prop, "tier": tier, "exit": int(rc), "seconds": int(secs),
-                                     "inconclusive": int(inc),
-                                     "failing_harnesses": [h for h in failing.split(",") if h]})
-rows = []
+    for line in open(path):
+        m = LINE.match(line)
+        if not m:
+            continue
+        sid, prop, tier, rc, secs, inc, failing = m.groups()
+        runs.setdefault(sid, []).append({"label": label, "check": prop, "tier": tier, "exit": int(rc), "seconds": int(secs),
+                                         "inconclusive": int(inc),
+                                         "failing_harnesses": [h for h in failing.split(",") if h]})
+def verdict(r):
+    if r["exit"] == 1:
+        return "caught"
+    if r["exit"] == 0 and r["inconclusive"] > max(2, 0):
+        return "missed (harnesses ran out of time)"
+    return "missed" if r["exit"] == 0 else "inconclusive"
+rows = {1: [], 2: []}
 for sid in sorted(os.listdir("/verif/seeded")):
     mp = os.path.join("/verif/seeded", sid, "meta.json")
     if not os.path.exists(mp):
         continue
     meta = json.load(open(mp))
-    # latest run per (check, tier) wins
-    last = {}
-    for r in runs.get(sid, []):
-        last[(r["check"], r["tier"])] = r
-    det = meta.get("detection", {}) or {}
-    for (c, t), r in last.items():
-        det["%s-%s" % (c, t)] = {
-            "how": "git apply patch.diff in a scratch worktree; VERIF_REPO=<worktree> python3 check.py %s --tier %s --no-replay" % (c, t),
-            "exit": r["exit"], "verdict": "caught" if r["exit"] == 1 else ("missed" if r["exit"] == 0 else "inconclusive"),
-            "failing_harnesses": r["failing_harnesses"], "seconds": r["seconds"]}
-    meta["detection"] = det
-    json.dump(meta, open(mp, "w"), indent=1)
-    caught = [k for k, v in det.items() if v["verdict"] == "caught"]
-    verdict = "caught" if caught else ("not run" if not det else "missed")
-    hs = sorted({h.split("::")[-1] for k in caught for h in det[k]["failing_harnesses"]})
-    rows.append("| %s | %s | %s | %s | %s |" % (sid, meta["title"], meta["needs_to_manifest"][:110], verdict + (" by " + ", ".join(caught) if caught else ""), ", ".join(hs[:3]) + (" …" if len(hs) > 3 else "")))
-print("| seed | change | needs | verdict | failing harnesses |")
-print("|------|--------|-------|---------|-------------------|")
-print("\n".join(rows))
+    det = {}
+    for r in runs.get(sid, []):  # later lines win
+        det["%s-%s@%s" % (r["check"], r["tier"], r["label"])] = {
+            "how": "git apply patch.diff in a scratch worktree; VERIF_REPO=<worktree> python3 check.py %s --tier %s --no-replay" % (r["check"], r["tier"]),
+            "checks_at": r["label"], "exit": r["exit"], "verdict": verdict(r),
+            "failing_harnesses": r["failing_harnesses"], "not_explored": r["inconclusive"], "seconds": r["seconds"]}
+    if det:
+        meta["detection"] = det
+        json.dump(meta, open(mp, "w"), indent=1)
+    det = meta.get("detection", {})
+    def cell(label):
+        c = [k for k, v in det.items() if v.get("checks_at") == label and v["verdict"] == "caught"]
+        if c:
+            hs = sorted({h.split("::")[-1] for k in c for h in det[k]["failing_harnesses"]})
+            return "caught by %s (%s%s)" % (", ".join(k.split("@")[0] for k in c), ", ".join(hs[:2]), " …" if len(hs) > 2 else "")
+        any_ = [v for k, v in det.items() if v.get("checks_at") == label]
+        if not any_:
+            return "-"
+        return "; ".join(sorted({v["verdict"] for v in any_}))
+    labels = [a.split("=")[0] for a in sys.argv[1:]]
+    rows[meta.get("round", 1)].append("| %s | %s | %s |" % (sid, meta["title"], " | ".join(cell(l) for l in labels)))
+labels = [a.split("=")[0] for a in sys.argv[1:]]
+for rnd in (1, 2):
+    print("\nround %d\n" % rnd)
+    print("| seed | change | %s |" % " | ".join(labels))
+    print("|------|--------|%s|" % "|".join("---" for _ in labels))
+    print("\n".join(rows[rnd]))
